@@ -59,6 +59,19 @@ def exp_layout(exp):
 class Pool:
     """Key material made once per run (key generation is slow)."""
 
+    # HMAC keys of every length class around the block size of SHA-256 (RFC 2104: a key longer than 64 octets is hashed
+    # first, a key of exactly 64 octets is not), chosen by the key locator name so that signer and verifier agree
+    HMAC_LENS = (32, 16, 1, 63, 64, 65, 100, 128, 160)
+
+    def hmac_for(self, kl):
+        try:
+            b = bytes(enc.Name.to_bytes(kl)) if kl is not None else b''
+        except Exception:  # noqa
+            b = repr(kl).encode()
+        h = hashlib.sha256(b).digest()
+        n = self.HMAC_LENS[h[0] % len(self.HMAC_LENS)]
+        return self.hmac if n == 32 else self._hmac_long[:n]
+
     def __init__(self, rng):
         rf = rng.randbytes
         self.ec = {}
@@ -72,6 +85,7 @@ class Pool:
         k = ECC.generate(curve='Ed25519', randfunc=rf)
         self.ed = (k.export_key(format='DER'), k.public_key())
         self.hmac = rf(32)
+        self._hmac_long = rf(160)
         # further keys of each class (histories over several verifier objects: key roll-over etc.)
         self.more = {'rsa': [self.rsa, self.rsa2], 'hmac': [self.hmac, rf(32), rf(32)], 'ecdsa': [self.ec[72]], 'ed25519': [self.ed]}
         for _ in range(2):
@@ -177,7 +191,7 @@ def uint_of_width(w, rng):
     return rng.choice([lo, hi, rng.randint(lo, hi)])
 
 
-def make_inner(sg, pool, kl):
+def make_inner(sg, pool, kl, kl_canon=None):
     """The real (or synthetic) signer object for a signer model; None for an unsigned packet."""
     k = sg['kind']
     if k == 'none':
@@ -185,7 +199,11 @@ def make_inner(sg, pool, kl):
     if k in ('digest', 'digestI'):
         return DigestSha256Signer(for_interest=(k == 'digestI'))
     if k == 'hmac':
-        return HmacSha256Signer(kl, pool.hmac)
+        # (the key is chosen by the canonical key name: kl itself may be a one-shot iterator)
+        key = pool.hmac_for(kl if kl_canon is None else kl_canon)
+        sgn = HmacSha256Signer(kl, key)
+        sgn._verif_key = key            # the verifier of a packet asks the signer object that signed it (signers are reused)
+        return sgn
     if k == 'rsa':
         return Sha256WithRsaSigner(kl, pool.rsa[0])
     if k == 'ed25519':
@@ -199,10 +217,10 @@ def make_inner(sg, pool, kl):
     raise MachineryError('unknown signer kind %r' % k)
 
 
-def make_signer(sg, rng, pool, kl, target=True, inner=None):
+def make_signer(sg, rng, pool, kl, target=True, inner=None, kl_canon=None):
     """-> Recorder around a fresh signer (or around `inner`, a signer object that is being reused), or None"""
     if inner is None:
-        inner = make_inner(sg, pool, kl)
+        inner = make_inner(sg, pool, kl, kl_canon)
     if inner is None:
         return None
     return Recorder(inner, target=sg['a'] if (sg['kind'] == 'ecdsa' and target) else None)
@@ -328,7 +346,7 @@ def build(cfg, rng, pool, target=True, name_form='list', live=None):
             r_ = (cfg.get('rep') or DEF_REP).get('kl')
             b.kl_form = forms['kl'] = dict(r_) if _pinned(r_) else _rot_form('kl')
             kl_given = name_arg(b.kl_form, b.kl)
-        b.rec = make_signer(cfg['sg'], rng, pool, kl_given, target)
+        b.rec = make_signer(cfg['sg'], rng, pool, kl_given, target, kl_canon=b.kl)
     b.exc = None
     b.wire = None
     b.final_name = None
@@ -416,6 +434,9 @@ class Verifier:
         self.kind = k = cfg['sg']['kind']
         self.pool = pool
         self.kl = b.kl
+        self.hkey = getattr(getattr(b, 'rec', None), '_verif_key', None) if k == 'hmac' else None
+        if k == 'hmac' and self.hkey is None:
+            self.hkey = pool.hmac
         self.has = k in ('digest', 'digestI', 'hmac', 'rsa', 'ecdsa', 'ed25519') or (k == 'syn' and cfg['sg']['a'] >= 16)
         self.syn_a = cfg['sg']['a']
         self.ec = pool.ec.get(cfg['sg']['r'], (None, None))[1] if k == 'ecdsa' else None
@@ -431,9 +452,9 @@ class Verifier:
                     and run_sync(sha256_digest_checker(name, sp))
                 out.append(('sha256_digest_checker', bool(ok)))
             elif k == 'hmac':
-                out.append(('verify_hmac', bool(verify_hmac(self.pool.hmac, sp))))
+                out.append(('verify_hmac', bool(verify_hmac(self.hkey, sp))))
                 if not raw_only:
-                    out.append(('HmacChecker', bool(run_sync(HmacChecker.from_key(self.kl, self.pool.hmac)(name, sp)))))
+                    out.append(('HmacChecker', bool(run_sync(HmacChecker.from_key(self.kl, self.hkey)(name, sp)))))
             elif k == 'rsa':
                 out.append(('verify_rsa', bool(verify_rsa(self.pool.rsa[1], sp))))
                 if not raw_only:
@@ -464,7 +485,7 @@ class Verifier:
             if k in ('digest', 'digestI'):
                 return hashlib.sha256(covered).digest() == sig
             if k == 'hmac':
-                return HMAC.new(self.pool.hmac, covered, digestmod=SHA256).digest() == sig
+                return HMAC.new(self.hkey, covered, digestmod=SHA256).digest() == sig
             if k == 'rsa':
                 pkcs1_15.new(self.pool.rsa[1]).verify(SHA256.new(covered), sig)
                 return True
